@@ -2534,7 +2534,21 @@ impl Planner {
     fn plan_distinct(&self, distinct: &DistinctOp) -> Result<(Box<dyn Operator>, Vec<String>)> {
         let (input_op, columns) = self.plan_operator(&distinct.input)?;
         let output_schema = self.derive_schema_from_columns(&columns);
-        let operator = Box::new(DistinctOperator::new(input_op, output_schema));
+        // Deduplicate on the named columns only, when the plan names some
+        let operator: Box<dyn Operator> = match &distinct.columns {
+            Some(names) => {
+                let indices = names
+                    .iter()
+                    .map(|name| {
+                        columns.iter().position(|c| c == name).ok_or_else(|| {
+                            Error::Internal(format!("DISTINCT column '{}' not found", name))
+                        })
+                    })
+                    .collect::<Result<Vec<usize>>>()?;
+                Box::new(DistinctOperator::on_columns(input_op, indices, output_schema))
+            }
+            None => Box::new(DistinctOperator::new(input_op, output_schema)),
+        };
         Ok((operator, columns))
     }
 
